@@ -189,6 +189,28 @@ def h_paste_exact(k, mx, my, pin="none"):
         prove("roi_src_multiple_of_k", And(sx_.start % k == 0, sx_.stop % k == 0, sy_.start % k == 0, sy_.stop % k == 0))
 
 
+def h_paste_near_integer(eps, mx):
+    """a scale that is only NEAR an integer (inside the scale tolerance): when the plan says
+    paste, the pasted pixel must still be the nearest-neighbour pixel -- for every destination
+    pixel, however wide the images are (the drift eps * u grows with the pixel index)"""
+    ov = ovm()
+    k = 1 + F(eps)
+    src, dst, L, t, (Nsy, Nsx, Ndy, Ndx) = mk_pair(k, k, mx, 1, None, bound=True, pin="y:aligned")
+    rr = ov.compute_reproject_roi(src, dst)
+    if not rr.paste_ok:
+        return  # refusing is always allowed
+    prove("read_shrink_is_1", _rs(rr) == 1)
+    (sy_, sx_), (dy_, dx_) = rr.roi_src, rr.roi_dst
+    u = Int("u")
+    assume(And(0 <= u, u < Ndx, dx_.start <= u, u < dx_.stop))
+    sx, _ = src_of(L, t, u + F(1, 2), F(1, 2))
+    fx = symx.s_floor(sx)
+    ux = u - dx_.start
+    want_x = sx_.start + ux if mx > 0 else sx_.stop - 1 - ux
+    prove("pasted_pixel_is_the_nearest_neighbour", want_x == fx)
+
+
+
 def h_paste_options(padmode, align):
     """(P4) paste is never reported when padding or alignment was requested"""
     ov = ovm()
@@ -236,6 +258,9 @@ OBLIGATIONS = [
        functions=("odc.geo.overlap.compute_reproject_roi", "odc.geo.overlap._can_paste", "odc.geo.math.snap_affine", "odc.geo.overlap.box_overlap", "odc.geo.roi.scaled_up_roi", "odc.geo.geobox.GeoBox.zoom_out"),
        bounds="k in grid, mirroring, origins / sizes / probe pixel symbolic; quick factors the axes (other axis pinned: aligned / within tolerance / shifted / sub-pixel)",
        setup=setup, timeout_ms=30000, deadline_s=2400),
+    Ob("P5_near_integer_scale", h_paste_near_integer, fixed(dict(eps="9/10000", mx=1), dict(eps="-1/2000", mx=1), dict(eps="1/4000", mx=-1)),
+       descr="relative scale near 1 inside the scale tolerance: if paste is reported, every pasted pixel is the nearest-neighbour pixel, for images of any width",
+       functions=("odc.geo.overlap.compute_reproject_roi", "odc.geo.overlap._can_paste", "odc.geo.math.snap_affine"), bounds="eps from a grid (it multiplies the pixel index); x sizes, translation and probe pixel symbolic; y axis pinned aligned", setup=setup, timeout_ms=30000),
     Ob("P4_options", h_paste_options, fixed(dict(padmode="1", align=0), dict(padmode="sym", align=0), dict(padmode="none", align=4), dict(padmode="0", align=16)),
        descr="paste never reported with padding/align requested", functions=("odc.geo.overlap.compute_reproject_roi",), setup=setup, timeout_ms=30000),
 ]
